@@ -442,11 +442,11 @@ UBX_PAYLOADS_GET = {
     },
     "CFG-FIXSEED": {
         "version": U1,
-        "length": U1,
+        "numIds": U1,  # "length" in the interface description; renamed to avoid UBXMessage.length
         "reserved1": U2,
         "seedHi": U4,
         "seedLo": U4,
-        "group": ("length", {"classId": U1, "msgId": U1}),  # repeating group * length
+        "group": ("numIds", {"classId": U1, "msgId": U1}),  # repeating group * numIds
     },
     "CFG-FXN": {
         "flags": (
@@ -1105,7 +1105,7 @@ UBX_PAYLOADS_GET = {
     },
     "CFG-TP": {
         "interval": U4,
-        "length": U4,
+        "pulseLength": U4,  # "length" in the interface description; renamed to avoid UBXMessage.length
         "status": I1,
         "timeRef": U1,
         "flags": (
